@@ -16,4 +16,21 @@ let () =
     | ["err"; hm; he] ->
       let m = bytes_of_hex hm and e = bytes_of_hex he in
       Printf.printf "a=%04x b=%04x\n" (int_of_n (crc m)) (int_of_n (crc (xor_bytes m e)))
+    | "seq" :: ops ->
+      (* one engine object, operations in order: R reset, G get, B get_bytes, xx feed byte *)
+      let reg = ref c09_reg_init in
+      let out = Buffer.create 64 in
+      List.iter (fun op ->
+        match op with
+        | "R" -> reg := c09_reg_reset
+        | "G" -> Buffer.add_string out (Printf.sprintf " g=%04x" (int_of_n (c09_reg_get !reg)))
+        | "B" -> Buffer.add_string out (" b=" ^ hex_of_bytes (c09_reg_get_bytes !reg))
+        | h -> reg := c09_reg_byte !reg (n_of_int (int_of_string ("0x" ^ h)))) ops;
+      print_endline ("seq" ^ Buffer.contents out)
+    | ["sweep"; h] ->
+      (* crc(byte, reg) for every 16-bit register value *)
+      let byte = n_of_int (int_of_string ("0x" ^ h)) in
+      let b = Buffer.create 270000 in
+      for r = 0 to 65535 do Buffer.add_string b (Printf.sprintf "%04x" (int_of_n (c09_reg_byte (n_of_int r) byte))) done;
+      print_endline (Digest.to_hex (Digest.string (Buffer.contents b)) ^ " " ^ String.sub (Buffer.contents b) 0 64)
     | _ -> print_endline "?")
